@@ -24,6 +24,14 @@ MARKET_SPEC = {'AAA': ('zigzag', BASES['AAA']), 'BBB': ('rising', BASES['BBB'])}
 CASH = 10007.31
 
 
+def market_days(start_iso, end_iso):
+    """the synthetic market covers the session: the standing 2020 window, or the days around a session elsewhere in time"""
+    d0, d1 = datetime.date.fromisoformat(start_iso[:10]), datetime.date.fromisoformat(end_iso[:10])
+    if MARKET_DAYS[0] <= d0 and d1 <= MARKET_DAYS[-1]:
+        return MARKET_DAYS
+    return rm.bdays(d0 - datetime.timedelta(days=6), d1 + datetime.timedelta(days=6))
+
+
 def iso(d, hm):
     return '%sT%s:00+00:00' % (d.isoformat(), hm)
 
@@ -43,6 +51,13 @@ def items(tier):
         d0 = FIRST + datetime.timedelta(days=off)
         out.append({'start': iso(d0, '14:30'), 'end': iso(d0 + datetime.timedelta(days=70), '23:59'), 'btimes': btimes,
                     'modes': modes, 'long': True})
+    # sessions elsewhere in time: one that straddles the day the check runs, one wholly after it, one far ahead and
+    # one long ago - what a session does must not depend on the wall clock
+    today = datetime.date.today()
+    for d0 in (today - datetime.timedelta(days=9), today + datetime.timedelta(days=3), datetime.date(2090, 2, 27),
+               datetime.date(1975, 2, 27)):
+        out.append({'start': iso(d0, '14:30'), 'end': iso(d0 + datetime.timedelta(days=17), '23:59'), 'btimes': ['14:30'],
+                    'modes': [True], 'elsewhere': True})
     return out
 
 
@@ -206,12 +221,15 @@ def per_item(item):
     viols, n, nontriv, boundary = [], 0, 0, 0
     shapes = set()
     try:
-        market = sl.make_market(MARKET_DAYS, MARKET_SPEC)
+        market = sl.make_market(market_days(item['start'], item['end']), MARKET_SPEC)
         sl.write_market(d, market)
         handler, _ = sl.load_handler(d, market)
         cfgs = list(session_cfgs(item))
         if item.get('long'):
             cfgs = list(long_cfgs(item))
+        if item.get('elsewhere'):
+            cfgs = [c for c in cfgs if c['burn_in'] is None or c['burn_in'][:10] == (
+                datetime.date.fromisoformat(item['start'][:10]) + datetime.timedelta(days=7)).isoformat()]
         # ... and, after all of them, the sessions without burn-in once more: a session must not depend on the
         # sessions (with other burn-ins, same dates and schedule) that ran before it in the process
         cfgs += [c for c in cfgs if c['burn_in'] is None]
@@ -255,7 +273,7 @@ def run(tier, res, is_known):
 def replay(case):
     d = scratch_dir('qsc14r-')
     try:
-        market = sl.make_market(MARKET_DAYS, MARKET_SPEC)
+        market = sl.make_market(market_days(case['cfg']['start'], case['cfg']['end']), MARKET_SPEC)
         sl.write_market(d, market)
         handler, _ = sl.load_handler(d, market)
         return check(case['cfg'], market, handler)[0]
